@@ -66,6 +66,12 @@ def make(shape: str, n: int, registry: bool, fall: bool = True, n_sym_modes: Opt
                         label = "differs_from_all_coroutine:%s" % lab
                     else:
                         label = V.outcome(obs, Ref(spec, beh).run())
+                    if label is None:
+                        # a second run of the same declarations: every execution gets a fresh node object in every mode
+                        # (state kept on self must not survive, otherwise process mode - a pickled copy - would differ)
+                        obs2 = run_engine(spec, beh, Cfg(rev_taskset=False))
+                        if obs2.rc.reused:
+                            label = "node_instance_reused:%s" % obs2.rc.reused[0]
                 else:
                     goals.append("unneeded_pool_missing")  # property silent (DESIGN C17): no assertion
             if len(set(modes)) >= 3:
@@ -75,6 +81,50 @@ def make(shape: str, n: int, registry: bool, fall: bool = True, n_sym_modes: Opt
             info = {"digest": obs.digest() + [modes, ts, ps], "goals": goals,
                     "summary": {"modes": modes, "thread_pool": ts, "process_pool": ps, "engine": obs.kind,
                                 "error": None if obs.error is None else type(obs.error).__name__}}
+            return (label or "ok"), info
+
+        return h
+
+    return mk
+
+
+def make_history() -> Any:
+    """Registry history: a successful run with both pools registered, then a pool is shut down / unregistered,
+    then the same pipeline is run again: the second run must fail fast (no node body invoked)."""
+    def mk() -> Any:
+        def h(sym: Any) -> Tuple[str, Dict[str, Any]]:
+            modes = [MODES[sym.choice("mode%d" % i, 4)] for i in range(3)]
+            ts = STATES[sym.choice("thread_pool_then", 3)]
+            ps = STATES[sym.choice("process_pool_then", 3)]
+            with untraced():
+                spec = _spec("chain", modes, False)
+                set_pools("ok", "ok")
+            beh = Behaviour(sym, spec, sym_dur=False)
+            first = run_engine(spec, beh, Cfg(rev_taskset=False))
+            label = V.hang(first)
+            if label is None and not (first.kind == "done" and first.error is None):
+                label = "first_run_failed:%s" % first.kind
+            goals = []
+            if label is None:
+                with untraced():
+                    set_pools(ts, ps)
+                second = run_engine(spec, beh, Cfg(rev_taskset=False))
+                missing = ("thread" in modes and ts != "ok") or ("process" in modes and ps != "ok")
+                label = V.hang(second)
+                if label is None and missing:
+                    goals.append("pool_lost_between_runs")
+                    if not (second.kind == "done" and second.error is not None):
+                        label = "missing_pool_not_an_error_result:%s" % second.kind
+                    elif any(k in ("start", "body") for _, k, _, _ in second.rc.log):
+                        label = "node_invoked_although_pool_missing"
+                elif label is None and ts == "ok" and ps == "ok":
+                    goals.append("pools_still_ready")
+                    if not (second.kind == "done" and second.error is None and V.same(second.value, first.value)):
+                        label = "second_run_differs"
+            with untraced():
+                set_pools("ok", "ok")
+            info = {"digest": [label, modes, ts, ps], "goals": goals,
+                    "summary": {"modes": modes, "thread_pool_then": ts, "process_pool_then": ps}}
             return (label or "ok"), info
 
         return h
@@ -109,3 +159,10 @@ register(Job("C17", "rhombus_modes_all", make("rhombus", 4, False), tier="thorou
              goals=("pools_ready", "three_modes_mixed"),
              doc={"template": "rhombus", "symbolic": ["mode per node (256 assignments)", "durations", "outcome kind of B", "caller input"],
                   "functions": F, "assumptions": A, "bounds": "4 nodes, pools registered"}))
+
+register(Job("C17", "registry_history", make_history(), tier="quick", budget_s=300,
+             parts=[{"thread_pool_then": t, "process_pool_then": p} for t in range(3) for p in range(3)],
+             goals=("pool_lost_between_runs", "pools_still_ready"),
+             doc={"template": "3-node chain, two runs; the registry state changes between them",
+                  "symbolic": ["mode per node (64)", "registry state of each pool before the second run (9)", "caller input"],
+                  "functions": F, "assumptions": A, "bounds": "2 runs, durations 0"}))
